@@ -8,10 +8,10 @@ Proof. eexists. reflexivity. Qed.
 
 (* values JSON cannot represent are rejected with an error, never mis-encoded *)
 Theorem marshal_rejects_marked v t : is_marked v = true -> json_marshal v t = Err OtherError.
-Proof. intros H. unfold json_marshal. cbn [Nat.add json_marshal_at]. rewrite H. reflexivity. Qed.
+Proof. intros H. unfold json_marshal. cbn [Nat.add json_marshal_at]. unfold json_marshal_step. rewrite H. reflexivity. Qed.
 
 Theorem marshal_rejects_unknown v t : is_marked v = false -> is_known v = false -> json_marshal v t = Err OtherError.
-Proof. intros M K. unfold json_marshal. cbn [Nat.add json_marshal_at]. rewrite M, K. reflexivity. Qed.
+Proof. intros M K. unfold json_marshal. cbn [Nat.add json_marshal_at]. unfold json_marshal_step. rewrite M, K. reflexivity. Qed.
 
 Theorem marshal_rejects_infinity n p i : json_marshal (V TNum (PNum (BInf n p) i)) TNum = Err OtherError.
 Proof. reflexivity. Qed.
@@ -29,7 +29,7 @@ Theorem null_roundtrip norm t : is_dyn t = false ->
   exists j, json_marshal (v_null t) t = Ok j /\ json_unmarshal norm j t = Ok (v_null t).
 Proof.
   intros D. exists JNull. split; [|reflexivity].
-  unfold json_marshal. cbn [Nat.add json_marshal_at is_marked v_null vp vty is_known is_null top_payload negb].
+  unfold json_marshal. cbn [Nat.add json_marshal_at]. unfold json_marshal_step. cbn [is_marked v_null vp vty is_known is_null top_payload negb].
   rewrite D. reflexivity.
 Qed.
 
@@ -40,7 +40,7 @@ Theorem dynamic_wrapper v j tj : is_marked v = false -> is_known v = true -> is_
   json_marshal_at (psize (vp v) + ty_size TDyn + ty_size (vty v)) v (vty v) = Ok j ->
   json_marshal v TDyn = Ok (JObj [(s_value, j); (s_type, tj)]).
 Proof.
-  intros M K D T J. unfold json_marshal. cbn [Nat.add json_marshal_at]. rewrite M, K. cbn [negb is_dyn andb]. rewrite D. cbn [negb].
+  intros M K D T J. unfold json_marshal. cbn [Nat.add json_marshal_at]. unfold json_marshal_step at 1. rewrite M, K. cbn [negb is_dyn andb]. rewrite D. cbn [negb].
   rewrite T. cbn [Nat.add] in J. rewrite J. reflexivity.
 Qed.
 
